@@ -7,7 +7,7 @@ EXTENDS Readers
 
 CellsAll == {"size", "en", "tot", "list0", "list1", "labels", "cache"}
 OpsPure == {"getEdgeNumber", "hasEdge", "getEdgeLabel", "getInDegrees", "edges", "equals_copy", "search", "write"}
-ReadPure == [op \in OpsPure \cup {"inDegreesCached"} |->
+ReadPure == [op \in OpsPure \cup {"inDegreesCached", "usesCache"} |->
     CASE op = "getEdgeNumber" -> <<"en">>
       [] op = "hasEdge"       -> <<"size", "list0">>
       [] op = "getEdgeLabel"  -> <<"size", "labels">>
@@ -16,8 +16,9 @@ ReadPure == [op \in OpsPure \cup {"inDegreesCached"} |->
       [] op = "equals_copy"   -> <<"size", "en", "labels", "list0", "list1", "tot">>
       [] op = "search"        -> <<"size", "list0", "list1", "list0">>
       [] op = "write"         -> <<"size", "list0", "labels", "list1", "labels">>
-      [] op = "inDegreesCached" -> <<"size", "cache", "list0", "cache">>]
-WriteNone == [op \in OpsPure \cup {"inDegreesCached"} |-> {}]
-OpsCached == {"getEdgeNumber", "hasEdge", "inDegreesCached"}
-WriteCached == [op \in OpsPure \cup {"inDegreesCached"} |-> IF op = "inDegreesCached" THEN {"cache"} ELSE {}]
+      [] op = "inDegreesCached" -> <<"size", "cache", "list0", "cache">>
+      [] op = "usesCache"     -> <<"size", "cache">>]      \* reads what the other operation memoises
+WriteNone == [op \in OpsPure \cup {"inDegreesCached", "usesCache"} |-> {}]
+OpsCached == {"getEdgeNumber", "inDegreesCached", "usesCache"}
+WriteCached == [op \in OpsPure \cup {"inDegreesCached", "usesCache"} |-> IF op = "inDegreesCached" THEN {"cache"} ELSE {}]
 =============================================================================
